@@ -719,6 +719,36 @@ class Item:
         self.rewrite(bo + h.start(), bs, ";\n  let mut vx_out = Vec::new();/*@pre*/\n  loop\n  /*@loop*/\n  {\n    let Some(%s) = vx_fm.next() else { break; };/*@body*/\n    let vx_e = " % p, "R3-filter-map-collect")
         self.rewrite(be, cend, ";\n    if let Some(vx_x) = vx_e { vx_out.push(vx_x); }\n  }\n  vx_out }", "R3-filter-map-collect")
 
+    def r3_extend_filter_map(self, fn, k):
+        """statement `V.extend(RECV.iter().filter_map(|P| BODY));` (BODY without `return` / `?`)  ==>  index loop pushing the Some results:
+        let mut vx_i = 0; while vx_i < RECV.len() { let P = &RECV[vx_i]; let vx_e = BODY; if let Some(vx_x) = vx_e { V.push(vx_x); } vx_i += 1; }
+        (the definition of Extend for Vec over filter_map; BODY stays in place)"""
+        k0, _, bo, end, _ = self.fn_span(fn)
+        hits = list(re.finditer(r"\.\s*extend\s*\(", self.m[bo:end]))
+        if len(hits) < k:
+            raise Undecided("LOST-ANCHOR: R3 extend-filter-map #%d in fn %s of %s" % (k, fn, self.where()))
+        h = hits[k - 1]
+        eopen = bo + h.end() - 1
+        eclose = match_brace(self.m, eopen, "(", ")")
+        inner = re.match(r"\(\s*(.+?)\s*\.\s*iter\s*\(\s*\)\s*\.\s*filter_map\s*\(", self.text[eopen:eclose], re.S)
+        if not inner:
+            raise Undecided("R3 extend-filter-map: argument is not `RECV.iter().filter_map(..)` at %s:%d" % (self.relpath, self.line_of(eopen)))
+        recv = inner.group(1).strip()
+        par = eopen + inner.end() - 1
+        p, bs, be, close = self._closure_after(par)
+        if re.search(r"\breturn\b|\?", self.m[bs:be]):
+            raise Undecided("R3 extend-filter-map: the closure body leaves early (return / ?)")
+        if self.text[close + 1:eclose].strip():
+            raise Undecided("R3 extend-filter-map: unexpected text after the closure")
+        s0 = self._stmt_start(bo + h.start())
+        var = self.text[s0:bo + h.start()].strip()
+        semi = self.m.find(";", eclose)
+        if not re.match(r"[A-Za-z_][A-Za-z0-9_.]*$", var) or self.text[eclose + 1:semi].strip():
+            raise Undecided("R3 extend-filter-map: statement shape not recognised at %s:%d" % (self.relpath, self.line_of(s0)))
+        iv = "vx_x%d" % k
+        self.rewrite(s0, bs, "let mut %s: usize = 0;/*@pre*/\n    while %s < %s.len()\n    /*@loop*/\n    {\n      let %s = &%s[%s];/*@body*/\n      let vx_e = " % (iv, iv, recv, p, recv, iv), "R3-extend-filter-map")
+        self.rewrite(be, semi + 1, ";\n      if let Some(vx_p) = vx_e { %s.push(vx_p); }/*@tail*/\n      %s = %s + 1;\n    }" % (var, iv, iv), "R3-extend-filter-map")
+
     def r3_position_expr(self, fn, k):
         """tail expression `RECV.iter().position(|P| BODY)`  ==>  index loop returning the first index whose BODY holds:
         { let mut vx_pos = None; let mut vx_i = 0; while vx_i < RECV.len() { let P = &RECV[vx_i]; let vx_b = BODY;
@@ -1241,6 +1271,16 @@ def build_unit(unit_path, repo=REPO):
                             if "---pre---" in payload:
                                 pretxt, _, payload = payload.partition("---pre---")
                             inv, _, bodytxt = payload.partition("---body---")
+                            bodytxt, _, tailtxt = bodytxt.partition("---tail---")
+                            if tailtxt.strip():
+                                # ghost text at the end of the generated loop body (the marker sits in the LAST edit of the shape)
+                                for ej in range(len(it.edits) - 1, -1, -1):
+                                    if "/*@tail*/" in it.edits[ej][2]:
+                                        e2 = it.edits[ej]
+                                        it.edits[ej] = (e2[0], e2[1], e2[2].replace("/*@tail*/", "/*+vx*/" + tailtxt + "/*-vx*/"), e2[3], e2[4])
+                                        break
+                                else:
+                                    raise Undecided("R3: this shape has no ---tail--- hook")
                             new = ed[2].replace("/*@loop*/", "/*+vx*/" + inv + "/*-vx*/")
                             if pretxt.strip():
                                 new = new.replace("/*@pre*/", "/*+vx*/" + pretxt + "/*-vx*/")
